@@ -114,6 +114,9 @@ def run(prog, rep):
                     if cfg["n_pts"] > 1 and cls == "StockDrivenDSM" and h not in ("CPC", "CDC", "RPC"):
                         continue        # two-point quadrature in the stock-driven solvers: rational functions of sums; a few histories only
                     jobs.append(("history", c2, cls, h))
+    # parameters handed to set_prms POSITIONALLY, in the order of the documented signature (two-parameter models)
+    for dist in ("WeibullLifetime", "NormalLifetime"):
+        jobs.append(("history", dict(n_t=3, labels=(), dist=dist, over="number", n_pts=1, inflow_at="middle", positional=True), "InflowDrivenDSM", "CPC"))
     if rep.tier == "quick":      # four time items: the smallest grid with different interval lengths
         for cls, sv in (("InflowDrivenDSM", None), ("StockDrivenDSM", "manual"), ("StockDrivenDSM", "lapack")):
             for h in ("CPC", "CDC", "CZDC"):
